@@ -36,8 +36,18 @@ def timing_chart(rng, dm):
     if rng.random() < 0.4:
         for tgt in rng.sample(['#_parent', '#_nosuchinvoke', '#_scxml_nosuchsession'], rng.randint(1, 2)):
             nbad += 1; L.append('   <send event="undeliverable%d" delay="%dms" target="%s"/>' % (nbad, rng.randint(5, 200), tgt))
-    L += ['  </onentry>', '  <transition event="d"/>', '  <transition event="error.communication"><log label="ERRCOMM"/></transition>', ' </state>', '</scxml>']
-    return '\n'.join(L), sends, cancels, nbad
+    # one <send id> executed several times (here: a targetless transition taken rep times): <cancel> must remove every pending instance, or none is removed
+    rep = None
+    if rng.random() < 0.5:
+        rep = {'times': rng.randint(2, 3), 'delay_ms': rng.randint(250, 400), 'cancel': rng.random() < 0.7, 'cancel_at_ms': rng.randint(20, 80)}
+        for _ in range(rep['times']): L.append('   <raise event="rep"/>')
+        if rep['cancel']: L.append('   <send event="docancelrep" delay="%dms"/>' % rep['cancel_at_ms'])
+    L += ['  </onentry>', '  <transition event="d"/>', '  <transition event="error.communication"><log label="ERRCOMM"/></transition>']
+    if rep:
+        L += ['  <transition event="rep"><send event="again" id="idrep" delay="%dms"/></transition>' % rep['delay_ms'], '  <transition event="again"/>',
+              '  <transition event="docancelrep"><cancel sendid="idrep"/></transition>']
+    L += [' </state>', '</scxml>']
+    return '\n'.join(L), sends, cancels, nbad, rep
 
 
 def check_timing(recs, sends, cancels):
@@ -87,13 +97,15 @@ SCRIPTS = {
     'timer-during-cancel': dict(script='ii.cancel.entry:set:cancelling,ii.cancel.entry:sleep:60000', send='docancel', sendwhen=''),
     # destroy the interpreter while the timer thread is parked before delivery
     'destroy-in-window': dict(script='deq.timer.unlocked:set:parked,deq.timer.unlocked:sleep:150000', send='', sendwhen='', stopwhen='parked'),
+    # the same with a delivery that takes long: destruction has to wait for it however long it takes
+    'destroy-in-long-window': dict(script='deq.timer.unlocked:set:parked,deq.timer.unlocked:sleep:600000', send='', sendwhen='', stopwhen='parked'),
 }
 
 
 def run_timing(job):
     flavour, seed, dm, engine, outdir = job
     rng = random.Random(seed)
-    xml, sends, cancels, nbad = timing_chart(rng, dm)
+    xml, sends, cancels, nbad, rep = timing_chart(rng, dm)
     f = os.path.join(outdir, 't%d.scxml' % seed); open(f, 'w').write(xml)
     r = thr.run_with_stacks(flavour, 'timers', f, timeout=40, seed=seed, engine=engine, quiet=700, block=rng.choice([20, 20, 3000]), **{'yield': rng.choice([0, 100, 400])})
     rec = {'job': list(job[:4]), 'bad': [], 'deliveries': 0, 'xml': xml}
@@ -102,6 +114,12 @@ def run_timing(job):
     if r['rc'] != 0: rec['bad'].append(('crash:' + (common.sanitizer_summary(r['err']) or 'rc=%s' % r['rc'])[:110], {'stderr': r['err'][-3000:]})); return rec
     recs = thr.records(r['out'])
     bad, n = check_timing(recs, sends, cancels)
+    if rep:
+        got = sum(1 for x in recs if x[3] == 'E' and x[4].split(' ')[1] == 'again')
+        want = 0 if rep['cancel'] else rep['times']
+        if got != want:
+            bad.append(('repeated-send-id:%s' % ('cancelled-but-delivered' if rep['cancel'] else 'instances-lost'), {'executions': rep['times'], 'cancelled': rep['cancel'], 'delivered': got, 'expected': want, 'rep': rep}))
+        n += got
     errs = sum(1 for x in recs if x[3] == 'E' and x[4].split(' ')[1] == 'error.communication')
     if errs != nbad: bad.append(('undeliverable-delayed-send:error.communication-%d-times-for-%d-sends' % (errs, nbad), {'undeliverable_sends': nbad, 'error_events': errs}))
     rec['bad'] = bad; rec['deliveries'] = n + errs
@@ -175,7 +193,7 @@ def main(tier, replay):
     shutil.rmtree(outdir, ignore_errors=True)
     chk.add('deliveries_checked', deliveries); chk.add('forced_windows_reached', dict(reached)); chk.add('script_outcomes', dict(outcomes)); chk.add('distinct_interleaving_signatures', len(sigs))
     chk.rule = ('timing charts: 4-14 delayed sends (5-400 ms, ms/s/unit-less forms, ids, a quarter of them to #_internal, some to targets that do not exist) and cancels, stepper polling (20 ms) or really blocking (3 s) in step(), run on plain/tsan/asan builds, both engines; not-early (2 ms) and exactly-once are hard checks, order/cancel rules use a 50 ms margin. '
-                'forced-window scripts (4) park the timer thread at deq.timer.entry / deq.timer.unlocked while <cancel> or destruction runs. distinct_nontrivial = runs without violation')
+                'forced-window scripts (5) park the timer thread at deq.timer.entry / deq.timer.unlocked while <cancel> or destruction runs. distinct_nontrivial = runs without violation')
     chk.assumptions = ['lateness is never a violation', 'a hang is reported with two gdb stack samples; forced scripts that never reach their window make the run inconclusive']
     chk.min_distinct = 10
     chk.finish()
